@@ -45,6 +45,13 @@ def gen_cases(ctx):
     for _ in range(1500 if q else 200000):
         a, b = G.near_pair(rng)
         cases.append((rng.choice(G.CMP_EXPRS), "[ " + a + " " + b + " ]"))
+    # literals whose spelling repeats an escape or a delimiter (the 2nd, 3rd … occurrence in one literal), used as operands of every core form
+    lits = ["'a\\'b\\'c'", "'\\'\\''", "'O\\'Neil \\'Jr\\''", "'x\\\\y\\\\z'", "`\"a\\`b\\`c\"`", "`\"q\\\"r\\\"s\"`", "\"k\\\"1\\\"2\"", "'\\\\\\''", "`[\"\\`\", \"\\`\\`\"]`",
+            "'\\n\\n'", "`\"\\n\\n\"`", "'a''b'"]
+    for lt in lits:
+        for tmpl in ["%s", "[%s, %s]", "{k: %s}.k", "a || %s", "[?name == %s].id", "[%s][0]", "%s == %s", "a == %s", "[*].[%s]", "%s | @", "!%s", "%s && a"]:
+            cases.append((tmpl.replace("%s", lt), G.json_to_enc([{"name": "a'b'c", "id": 1}, {"name": "O'Neil 'Jr'", "id": 2}, {"name": "x\\y\\z", "id": 3}])))
+            cases.append((tmpl.replace("%s", lt), G.json_to_enc({"a": "a'b'c", "k\"1\"2": 5})))
     return cases
 
 
